@@ -117,7 +117,7 @@ func (o *vfOwner) ProcessInit(process gen.Process, args ...any) error {
 	}
 	return o.fail
 }
-func (o *vfOwner) ProcessRun() error               { return nil }
+func (o *vfOwner) ProcessRun() error             { return nil }
 func (o *vfOwner) ProcessTerminate(reason error) { o.terms++ }
 
 // VerifC10InitFailure: an owner starts 0..N LinkParent children during its own start-up (as act.Pool
